@@ -451,9 +451,9 @@ class Gen:
         prog = {"carriers": ["Ta", "Tb"][:ncar], "model": "Mm", "members": [], "gpreds": [], "consts": [], "rules": [],
                 "cmors": []}
         for i in range(1 + rng.below(2)):
-            # member predicates have at most ONE column: for two or more non-member columns the compiler emits
-            # `mapped(None\nNone)` (missing comma, rust_gen/mod.rs dom_cod_maps) and rustc rejects the module
-            ar = rng.choice([0, 1, 1, 1])
+            # member predicates have 0..3 columns of non-member types (two or more columns used to make the compiler
+            # emit `mapped(None\nNone)`, repaired in /repo 9ee0d26; corpus/C17/seed-two-columns.json pins it)
+            ar = rng.choice([0, 1, 1, 1, 2, 2, 3])
             prog["members"].append({"name": MEMBER_NAMES[i], "cols": [rng.below(ncar) for _ in range(ar)]})
         for i in range(1 + rng.below(3)):
             # global predicates often mention the model type, so that rule conclusions can tell the models apart
